@@ -61,7 +61,7 @@ fn run_cli(ctx: &mut Ctx) {
         return;
     }
     let ex = clonefam::expect(&f);
-    if ex.collision {
+    if ex.collision || clonefam::truncated_twins(&f.ra) {
         simkit::count("hash-collision-exempt");
         return;
     }
@@ -78,7 +78,7 @@ fn run_cli(ctx: &mut Ctx) {
 }
 
 fn run_subset(ctx: &mut Ctx) {
-    let big = ctx.tier == Tier::Thorough && gen::chance(1, 50);
+    let big = gen::chance(1, if ctx.tier == crate::harness::Tier::Thorough { 50 } else { 600 });
     let Some(m) = make_archive(ctx, if big { 3 << 20 } else { 48 * 1024 }, big, Some(2)) else { return };
     let ra = match decode_archive(&m.archive) {
         Ok(a) => a,
